@@ -380,11 +380,16 @@ Wrap(kind, body) ==
     [] kind = "comdat" -> <<36>> \o body
     [] kind = "label" -> body \o <<58>>
     [] kind = "string" -> body
+\* the backslash written raw: legal where it is not followed by a backslash or two hex digits
+RawBackslash(s) == Concat([i \in 1..Len(s) |->
+               IF IsPrintable(s[i]) /\ s[i] # Quote THEN <<s[i]>> ELSE EscByte(s[i])])
 AltEncodings(kind, s) ==
   IF kind = "mdname"
   THEN {[tag |-> "all-escaped", tok |-> <<33>> \o Concat([i \in 1..Len(s) |-> EscByteL(s[i])])]}
   ELSE {[tag |-> "all-escaped", tok |-> Wrap(kind, AllEscaped(s))],
         [tag |-> "backslash-as-5C", tok |-> Wrap(kind, Esc5C(s))]}
+       \cup (IF UnEscape(RawBackslash(s)) = s
+             THEN {[tag |-> "raw-backslash", tok |-> Wrap(kind, <<Quote>> \o RawBackslash(s) \o <<Quote>>)]} ELSE {})
        \cup (IF kind = "label" /\ AllOf(IsTailChar, s) /\ ~IsDigits(s)
              THEN {[tag |-> "bare-label", tok |-> s \o <<58>>]} ELSE {})
 RefEncodeID(kind, ds) ==
